@@ -38,12 +38,12 @@ CHECKS = {
    note="ChangeCipher and KDF pairs not yet modelled; 'no blob under the old key remains' is checked for the vault rebuilt from the log and the persisted vault, not by scanning raw storage bytes."),
  "C04": dict(
    level="model_checking", design="DESIGN.md 6.6, 7 (C04/C05), appendix A.3",
-   technique="TLA+ spec Sync.tla (request-granular sync protocol) model-checked exhaustively with TLC; simulated behaviours of the code-faithful model replayed on real LocalAccount devices syncing through a real server Backend with the real AutoMerge code",
+   technique="TLA+ spec MultiSync.tla (all event logs of the account, edits that touch several logs) model-checked with TLC and simulated behaviours replayed on two devices and a server (all four backend pairs); and: TLA+ spec Sync.tla (request-granular sync protocol) model-checked exhaustively with TLC; simulated behaviours of the code-faithful model replayed on real LocalAccount devices syncing through a real server Backend with the real AutoMerge code",
    text="Sync.tla has one action per request and per local critical section of perform_sync/sync_account/auto_merge (status, sync, scan pages, diff, merge_patches, patch with rewind+rollback, rewind_local, force merge); TLC checks QuiescentConverged, SuccessMeansEqual, NoLoss, NoDup, OnlyCommitted, ServerMonotone, NoAcceptedDropped exhaustively on the sequential 2-device instance (all edit histories of <=2 edits per device over create/update/delete incl. byte-identical deletes, all timestamps incl. ties, all sync orders, K rounds); the code-faithful model (listed deviations switched on) is then simulated and each behaviour replayed on real devices and a real server storage; after every edit and sync call the record streams (event, time) of all replicas, the result and the request route are compared; at the end of settled behaviours all sync statuses and decrypted folders must be equal. Failures on behaviours that pass through a listed deviation are reported as KNOWN-FINDING, any other as VIOLATION.",
    note="In-process SyncClient mirrors the axum handlers (same locks/server_helpers calls, protobuf round trip); one synced folder log is modelled (identity/account/device/file logs stay equal in these histories); 3 devices and account/device/file log edits not yet modelled; replay by seeded simulation, not exhaustive."),
  "C05": dict(
    level="model_checking", design="DESIGN.md 6.6, 7 (C04/C05), appendix A.3",
-   technique="TLA+ spec Sync.tla invariants NoLoss/NoDup/OnlyCommitted model-checked with TLC; simulated behaviours replayed on real devices + server; converged logs compared with the harness's own ledger of committed events; C02 predicate after every merge",
+   technique="TLA+ spec MultiSync.tla (all event logs of the account, edits that touch several logs) model-checked with TLC and simulated behaviours replayed on two devices and a server (all four backend pairs); and: TLA+ spec Sync.tla invariants NoLoss/NoDup/OnlyCommitted model-checked with TLC; simulated behaviours replayed on real devices + server; converged logs compared with the harness's own ledger of committed events; C02 predicate after every merge",
    text="Same specification and replay as C04. TLC checks NoLoss, NoDup, OnlyCommitted exhaustively on the model; in the replay the record streams must equal the spec's after every step (interleaving by timestamp, ties included), and at the end of settled behaviours every event committed on any device must occur in the converged server log exactly once (byte-identical independent events at least once) and nothing else; after every sync the served folder must equal the replay of its event log and the persisted vault (the merge replay path of C02).",
    note="As C04."),
  "C14": dict(
